@@ -1,5 +1,6 @@
 import PP.Extracted
 import PP.Model.Html
+import PP.Model.HtmlDoc
 /-
 Pins of the HTML template (stack/goroutines.tpl as compiled into indexHTML)
 against the model of PP/Model/Html.lean.  The facts are produced by parsing the
@@ -195,6 +196,73 @@ theorem pin_skeleton_content :
   (3, "TEXT 33"), (3, "HOLE printf \"0x%08X\" $e.RaceAddr"), (3, "TEXT 34"),
   (2, "IF $e.CreatedBy.Calls"), (3, "TEXT 35"), (3, "TEMPLATE RenderCreatedBy index $e.CreatedBy.Calls 0"), (3, "TEXT 36"),
   (2, "TEMPLATE RenderCalls $e.Signature.Stack")] := by decide
+
+/-! ### the rest of the document (PP/Model/HtmlDoc.lean): head, Metadata section, legend, footer -/
+
+/-- the Favicon hole: inside the URL attribute after the literal `data:image/gif;base64,`,
+so no `urlfilter`; the model renders it with `attrEscaper ∘ urlNormalizer` (`faviconHole`) -/
+theorem pin_favicon_hole :
+    (templateHoles.filter fun h => h.2.1 == ".Favicon") = [("t", ".Favicon", esc_dataurl)] := by decide
+
+/-- every hole of the Metadata section and of `Join`, and the footer, is a text hole -/
+theorem pin_metadata_holes :
+    (templateHoles.filter fun h => h.1 == "Join" ||
+      h.2.1 ∈ [".Now.String", ".Version", ".Snapshot.RemoteGOROOT", ".Snapshot.LocalGOROOT", "$path", "$import",
+        ".GOMAXPROCS", ".Footer"]) =
+    [("Join", "$e", esc_text), ("t", ".Now.String", esc_text), ("t", ".Version", esc_text),
+     ("t", ".Snapshot.RemoteGOROOT", esc_text), ("t", ".Snapshot.LocalGOROOT", esc_text),
+     ("t", ".Snapshot.RemoteGOROOT", esc_text), ("t", "$path", esc_text), ("t", "$import", esc_text),
+     ("t", ".GOMAXPROCS", esc_text), ("t", ".Footer", esc_text)] := by decide
+
+/-- 51 holes in all; 22 in the main template: the favicon, 6 + 6 in the two loops of the
+content division, 8 in the Metadata section, the footer -/
+theorem pin_hole_count : templateHoles.length = 51 ∧ (templateHoles.filter fun h => h.1 == "t").length = 22 := by
+  decide
+
+theorem pin_texts_Join : (textsOf "Join").map (·.2) = [Lit.j0] := by decide
+
+theorem pin_skeleton_Join : skeletonOf "Join" = [
+  (0, "IF ."), (1, "SET $l := len ."), (1, "SET $last := minus $l 1"), (1, "RANGE $i, $e := ."),
+  (2, "HOLE $e"), (2, "SET $isNotLast := ne $i $last"), (2, "IF $isNotLast"), (3, "TEXT 0")] := by decide
+
+/-- the short text nodes of the main template outside the content division -/
+theorem pin_texts_doc :
+    ((textsOf "t").filter fun x => x.1 < 5 || 37 ≤ x.1) =
+      [(0, Lit.t0), (2, Lit.t2), (37, Lit.t37), (38, Lit.t38), (39, Lit.t39), (40, Lit.t40), (41, Lit.t41),
+       (42, Lit.t42), (43, Lit.t43), (44, Lit.t44), (45, Lit.t45), (46, Lit.t46), (47, Lit.t47), (48, Lit.t48),
+       (49, Lit.t49), (50, Lit.t50), (51, Lit.t51), (52, Lit.t52), (54, Lit.t54)] := by decide
+
+set_option maxRecDepth 100000 in
+/-- the four long text nodes: the extractor emits their lengths only -/
+theorem pin_long_text_lengths :
+    templateLongTexts =
+      [("t", 1, Lit.t1.length), ("t", 3, Lit.t3.length), ("t", 4, Lit.t4.length), ("t", 53, Lit.t53.length)] := by
+  decide
+
+/-- the main template before the content division: `headPieces` -/
+theorem pin_skeleton_head :
+    (skeletonOf "t").take 6 =
+      [(0, "TEXT 0"), (0, "TEXT 1"), (0, "HOLE .Favicon"), (0, "TEXT 2"), (0, "TEXT 3"), (0, "TEXT 4")] := by decide
+
+/-- the main template after the content division: `metaPieces`, the footer, the last text node -/
+theorem pin_skeleton_metadata :
+    (skeletonOf "t").drop 73 = [
+  (0, "TEXT 37"), (0, "HOLE .Now.String"), (0, "TEXT 38"), (0, "HOLE .Version"), (0, "TEXT 39"),
+  (0, "IF and .Snapshot.LocalGOROOT (ne .Snapshot.RemoteGOROOT .Snapshot.LocalGOROOT)"),
+  (1, "TEXT 40"), (1, "HOLE .Snapshot.RemoteGOROOT"), (1, "TEXT 41"), (1, "HOLE .Snapshot.LocalGOROOT"), (1, "TEXT 42"),
+  (0, "ELSE"), (1, "TEXT 43"), (1, "HOLE .Snapshot.RemoteGOROOT"), (1, "TEXT 44"),
+  (0, "TEXT 45"), (0, "TEMPLATE Join .Snapshot.LocalGOPATHs"), (0, "TEXT 46"),
+  (0, "IF .Snapshot.LocalGomods"), (1, "TEXT 47"), (1, "RANGE $path, $import := .Snapshot.LocalGomods"),
+  (2, "TEXT 48"), (2, "HOLE $path"), (2, "TEXT 49"), (2, "HOLE $import"), (2, "TEXT 50"), (1, "TEXT 51"),
+  (0, "TEXT 52"), (0, "HOLE .GOMAXPROCS"), (0, "TEXT 53"), (0, "HOLE .Footer"), (0, "TEXT 54")] := by decide
+
+/-- head (6 nodes), content division (67 nodes, `pin_skeleton_content`), the rest (32 nodes): nothing else -/
+theorem pin_skeleton_t_length : (skeletonOf "t").length = 6 + 67 + 32 := by decide
+
+set_option maxRecDepth 100000 in
+/-- the four long text nodes (style sheet, legend, scripts), byte for byte -/
+theorem pin_long_text_bytes : Extracted.templateLongTextBytes =
+    [("t", 1, Lit.t1), ("t", 3, Lit.t3), ("t", 4, Lit.t4), ("t", 53, Lit.t53)] := by decide
 
 /-- the regular expressions of html.go that the hand matchers `reVersionAt` and
 `reMethodSymbol` of the model transcribe -/
